@@ -389,7 +389,20 @@ func sortHostsReverseHostPort(hosts []string) []string {
 	for i, h := range hosts {
 		hosts[i] = ReverseHostPort(h)
 	}
+
+	// A host name without glob characters matches only itself and is
+	// therefore more specific than any pattern, e.g. foo.com must come
+	// before *foo.com or {foo,bar}.com. Move the host names to the front
+	// and keep the order otherwise.
+	sort.SliceStable(hosts, func(i, j int) bool {
+		return !isHostPattern(hosts[i]) && isHostPattern(hosts[j])
+	})
 	return hosts
+}
+
+// isHostPattern returns true if the host is empty or contains glob characters.
+func isHostPattern(host string) bool {
+	return host == "" || strings.ContainsAny(host, "*?[{\\")
 }
 
 // ReverseHostPort returns its argument string reversed rune-wise left to
